@@ -18,24 +18,30 @@
 //!             (thorough: every triple), also through variables and compound
 //!             assignment
 //!   triples   `a op1 b op2 c` without parentheses (precedence and
-//!             associativity) over boundary operands (thorough: every pair of
-//!             operators)
+//!             associativity) over boundary operands; thorough: the space
+//!             `triples5` = all 18 x 18 operator pairs x 5^3 operands
+//!             {0, 1, -1, 63, 2^63-1}, exhaustively (40500 texts)
 //!   varval    a variable holding a constant-like string, as `x` and as the
 //!             text itself
 //!   soup      random token sequences
 //!   unicode   random characters, including non-ASCII blanks, letters, digits
+//!   portable  corpus, trees and soup with Config { portable: true }
+//!             (ast/portability.rs: `++` / `--` rejected wherever they stand)
 //!   depth     1 inside N parentheses / after N `!` / inside N nested `?:`,
 //!             N = 100 .. 100000, each evaluated in a child process (this binary
 //!             re-executed with `--opt deep=KIND:N`) so that a stack overflow is an
 //!             observed outcome (Crash) and not the end of the harness; a crash at
 //!             depth >= 5000 is tagged F20 (open known finding), any other crash is not
+//!   shellx    the shell's arithmetic expansion with `set -u` on/off, read-only
+//!             variables, `$name` / `${name}` and nested `$(( ))` in the text; the
+//!             variables are read by the EXIT trap, also after an expansion error
 //!   shell     tree texts through the whole shell on the simulated OS:
 //!             `args "$((text))"` after assigning the variables, then the
 //!             variables read back (yash-semantics expansion/initial/arith.rs)
 
 use std::collections::{BTreeMap, BTreeSet, HashMap};
 use std::panic::{AssertUnwindSafe, catch_unwind};
-use yash_arith::{ErrorCause, EvalError, SyntaxError, TokenError, Value};
+use yash_arith::{Config, ErrorCause, EvalError, PortabilityError, SyntaxError, TokenError, Value};
 use yv_harness::cli::Args;
 use yv_harness::out::CasesWriter;
 use yv_harness::rng::Rng;
@@ -61,8 +67,14 @@ fn env_json(v: &Vars) -> String {
 /// The implementation's answer as a Coq term of type `outcome`, a short text,
 /// and a class for the histogram.
 fn run_impl(text: &str, vars: &Vars) -> (String, String, String) {
+    run_impl_config(text, vars, false)
+}
+
+fn run_impl_config(text: &str, vars: &Vars, portable: bool) -> (String, String, String) {
     let mut env: HashMap<String, String> = vars.iter().map(|(k, v)| (k.clone(), v.clone())).collect();
-    let r = catch_unwind(AssertUnwindSafe(|| yash_arith::eval(text, &mut env)));
+    let mut config = Config::new();
+    config.portable = portable;
+    let r = catch_unwind(AssertUnwindSafe(|| yash_arith::eval_with_config(text, &mut env, config)));
     let after: Vars = env.into_iter().collect();
     let e = env_term(&after);
     match r {
@@ -119,6 +131,9 @@ fn run_impl(text: &str, vars: &Vars) -> (String, String, String) {
                     };
                     (format!("(CEval {t})"), n)
                 }
+                ErrorCause::PortabilityError(PortabilityError::IncrementDecrement) => {
+                    ("CPortability".into(), "NonPortableIncrementDecrement")
+                }
                 other => panic!("unknown error cause {other:?}"),
             };
             (
@@ -131,8 +146,19 @@ fn run_impl(text: &str, vars: &Vars) -> (String, String, String) {
 }
 
 fn emit(w: &mut CasesWriter, stream: &str, text: &str, vars: &Vars) {
-    let (out, shown, class) = run_impl(text, vars);
-    let term = format!("(KEval {} {} {} {})", class_table(text), coq::s(text), env_term(vars), out);
+    emit_config(w, stream, text, vars, false)
+}
+
+fn emit_config(w: &mut CasesWriter, stream: &str, text: &str, vars: &Vars, portable: bool) {
+    let (out, shown, class) = run_impl_config(text, vars, portable);
+    let term = format!(
+        "({} {} {} {} {})",
+        if portable { "KPortable" } else { "KEval" },
+        class_table(text),
+        coq::s(text),
+        env_term(vars),
+        out
+    );
     let json = format!(
         "{{\"stream\":{},\"text\":{},\"vars\":{},\"impl\":{}}}",
         json_str(stream),
@@ -228,6 +254,172 @@ fn emit_shell(w: &mut CasesWriter, text: &str, vars: &Vars) {
 }
 
 // ---------------------------------------------------------------------------
+// the text of `$(( ))` as units: literal text, `${name}` / `$name`, nested `$(( ))`
+
+#[derive(Clone, Debug)]
+enum Unit {
+    Lit(String),
+    Param(String, bool), // name, written with braces
+    Arith(Vec<Unit>),
+}
+
+fn units_script(us: &[Unit], out: &mut String) {
+    for u in us {
+        match u {
+            Unit::Lit(t) => out.push_str(t),
+            Unit::Param(n, true) => out.push_str(&format!("${{{n}}}")),
+            Unit::Param(n, false) => out.push_str(&format!("${n}")),
+            Unit::Arith(inner) => {
+                out.push_str("$((");
+                units_script(inner, out);
+                out.push_str("))");
+            }
+        }
+    }
+}
+
+fn units_coq(us: &[Unit]) -> String {
+    let mut v = vec![];
+    for u in us {
+        match u {
+            Unit::Lit(t) => v.extend(t.chars().map(|c| format!("ULit {}", c as u32))),
+            Unit::Param(n, _) => v.push(format!("UParam {}", coq::s(n))),
+            Unit::Arith(inner) => v.push(format!("UArith {}", units_coq(inner))),
+        }
+    }
+    if v.is_empty() { "(@nil tunit)".into() } else { format!("[{}]%N", v.join("; ")) }
+}
+
+fn tree_units(t: &Tree, r: &mut Rng, depth: usize, out: &mut Vec<Unit>) {
+    if depth < 2 && !matches!(t, Tree::Var(_)) && r.chance(1, 7) {
+        let mut inner = vec![];
+        tree_units(t, r, depth + 1, &mut inner);
+        out.push(Unit::Arith(inner));
+        return;
+    }
+    let lit = |out: &mut Vec<Unit>, s: &str| out.push(Unit::Lit(s.to_string()));
+    let sub = |t: &Tree, r: &mut Rng, out: &mut Vec<Unit>| {
+        let leaf = matches!(t, Tree::Var(_)) || matches!(t, Tree::Num(v, _) if *v >= 0);
+        if !leaf {
+            out.push(Unit::Lit("(".into()));
+        }
+        tree_units(t, r, depth, out);
+        if !leaf {
+            out.push(Unit::Lit(")".into()));
+        }
+    };
+    match t {
+        Tree::Num(..) => {
+            let mut s = String::new();
+            t.render(1, 100, &mut Rng::new(0), &mut s);
+            lit(out, s.trim());
+        }
+        Tree::Var(n) => match r.below(4) {
+            0 => out.push(Unit::Param(n.clone(), true)),
+            1 => {
+                out.push(Unit::Param(n.clone(), false));
+                lit(out, " ");
+            }
+            _ => lit(out, n),
+        },
+        Tree::Pre(o, a) => {
+            lit(out, o);
+            lit(out, " ");
+            sub(a, r, out);
+        }
+        Tree::Post(o, a) => {
+            sub(a, r, out);
+            lit(out, o);
+        }
+        Tree::Bin(o, _, a, b) | Tree::Asg(o, a, b) => {
+            sub(a, r, out);
+            lit(out, &format!(" {o} "));
+            sub(b, r, out);
+        }
+        Tree::Cond(c, a, b) => {
+            sub(c, r, out);
+            lit(out, " ? ");
+            sub(a, r, out);
+            lit(out, " : ");
+            sub(b, r, out);
+        }
+    }
+}
+
+/// `args "$(( units ))"` in the shell with nounset on/off and read-only variables; the
+/// variables are read by the EXIT trap, also after an expansion error.
+fn emit_shellx(w: &mut CasesWriter, us: &[Unit], vars: &Vars, nounset: bool, ro: &[String]) {
+    let mut text = String::new();
+    units_script(us, &mut text);
+    assert!(!text.contains(['`', '\\', '"', '\'']));
+    let mut script = String::from("trap 'args");
+    for n in NAMES {
+        script.push_str(&format!(" \"${{{n}+s}}\" \"${{{n}-}}\""));
+    }
+    script.push_str("' EXIT\n");
+    for (k, v) in vars {
+        assert!(!v.contains('\''));
+        script.push_str(&format!("{k}='{v}'\n"));
+    }
+    if !ro.is_empty() {
+        script.push_str(&format!("readonly {}\n", ro.join(" ")));
+    }
+    if nounset {
+        script.push_str("set -u\n");
+    }
+    script.push_str(&format!("args \"$(({text}))\"\n"));
+    let out = vsh::run_script(&script);
+    let args: Vec<&vsh::TraceItem> = out.trace.iter().filter(|t| t.kind == "args").collect();
+    let read_vars = |t: &vsh::TraceItem| {
+        let mut after = Vars::new();
+        for (i, n) in NAMES.iter().enumerate() {
+            if t.args[2 * i] == "s" {
+                after.insert(n.to_string(), t.args[2 * i + 1].clone());
+            }
+        }
+        after
+    };
+    let nv = 2 * NAMES.len();
+    let (ans, shown, class): (String, String, &str) = if out.panicked.is_some() {
+        ("SaPanic".into(), format!("PANIC {:?}", out.panicked), "panic")
+    } else if args.len() == 2 && args[0].args.len() == 1 && args[1].args.len() == nv && out.status == 0 {
+        let after = read_vars(args[1]);
+        (
+            format!("(SaText {} {})", coq::s(&args[0].args[0]), env_term(&after)),
+            format!("{} {}", args[0].args[0], env_json(&after)),
+            "value",
+        )
+    } else if args.len() == 1 && args[0].args.len() == nv && out.status != 0 && !out.deadlock && !out.timeout {
+        let after = read_vars(args[0]);
+        (format!("(SaError {})", env_term(&after)), format!("error {}", env_json(&after)), "error")
+    } else {
+        ("SaOther".into(), format!("unexpected: {out:?}"), "other")
+    };
+    let rol: Vec<String> = ro.iter().map(|n| coq::s(n)).collect();
+    let term = format!(
+        "(KShellX {} {} {} {} {} {})",
+        class_table(&text),
+        coq::b(nounset),
+        coq::list(&rol),
+        units_coq(us),
+        env_term(vars),
+        ans
+    );
+    let json = format!(
+        "{{\"stream\":\"shellx\",\"script\":{},\"impl\":{}}}",
+        json_str(&script),
+        json_str(&shown)
+    );
+    w.count("stream:shellx");
+    w.count(&format!("shellx_answer:{class}"));
+    w.count(if nounset { "shellx:nounset" } else { "shellx:unset-is-0" });
+    if !ro.is_empty() {
+        w.count("shellx:with-readonly");
+    }
+    w.push(&term, &json, &[], Some(format!("shx\u{0}{script}")));
+}
+
+// ---------------------------------------------------------------------------
 // expression trees
 
 const BIN_OPS: [(&str, u8); 20] = [
@@ -237,7 +429,9 @@ const BIN_OPS: [(&str, u8); 20] = [
 ];
 const ASSIGN_OPS: [&str; 11] = ["=", "|=", "^=", "&=", "<<=", ">>=", "+=", "-=", "*=", "/=", "%="];
 const PREFIX_OPS: [&str; 6] = ["+", "-", "!", "~", "++", "--"];
-const NAMES: [&str; 8] = ["a", "b", "c", "x", "y", "_z1", "u", "m"];
+// the variables the generated texts can name, including "abc", a *value* of VALUES that
+// is a name (`$((${c} = 1))` with c=abc assigns abc); all are read back in the shell streams
+const NAMES: [&str; 9] = ["a", "b", "c", "x", "y", "_z1", "u", "m", "abc"];
 
 const BOUNDARY: [i128; 14] = [
     0,
@@ -744,11 +938,19 @@ fn main() {
         let mut vars = Vars::new();
         vars.insert("m".into(), "-9223372036854775808".into());
         if args.thorough() {
+            // EXHAUSTIVE named space `triples5`: every text `a o1 b o2 c` (no
+            // parentheses) with o1, o2 among the 18 binary operators that evaluate
+            // both operands or short-circuit, and a, b, c among five boundary operands:
+            // 18 * 18 * 5^3 = 40500 texts
+            const FIVE: [i128; 5] = [0, 1, -1, 63, 9223372036854775807];
             for (o1, _) in &BIN_OPS[..18] {
                 for (o2, _) in &BIN_OPS[..18] {
-                    for _ in 0..40 {
-                        let (a, b, c) = (*r.pick(&SMALL), *r.pick(&SMALL), *r.pick(&SMALL));
-                        emit(&mut w, "triples", &format!("{} {} {} {} {}", lit(a), o1, lit(b), o2, lit(c)), &vars);
+                    for a in FIVE {
+                        for b in FIVE {
+                            for c in FIVE {
+                                emit(&mut w, "triples5", &format!("{} {} {} {} {}", lit(a), o1, lit(b), o2, lit(c)), &vars);
+                            }
+                        }
                     }
                 }
             }
@@ -779,6 +981,30 @@ fn main() {
         t.render(1, keep, &mut r, &mut s);
         let vars = random_vars(&mut r);
         emit(&mut w, "tree", &s, &vars);
+    }
+
+    // -- portable: Config { portable: true } -----------------------------------------------
+    for t in [
+        "1+2", "x++", "++x", "x--", "--x", "1 + x++", "0 && x++", "1 || ++x", "0 ? x++ : 2", "1 ? 2 : --x",
+        "x++ + y--", "y-- + x++", "(x)++", "- -x", "+ +x", "1 - -1", "1 + +1", "x+++y", "x---y", "++", "1 ++ 2",
+        "x++ $", "$ x++", "x++ +", "(x++", "-- -- x", "++1", "1++", "x = y++", "a ? b++ : c--", "1 / 0 + x++",
+        "bad + x++", "x++ + bad", "x +++ ++ y",
+    ] {
+        emit_config(&mut w, "portable", t, &base, true);
+    }
+    let n = args.scale(150, 2500);
+    for k in 0..n {
+        let mut r = rng.fork(0x8000 + k as u64);
+        let depth = 1 + r.below(4);
+        let t = random_tree(&mut r, depth);
+        let mut s = String::new();
+        t.render(1, 100, &mut r, &mut s);
+        if r.chance(1, 4) {
+            let len = 1 + r.below(6);
+            s = soup(&mut r, len);
+        }
+        let vars = random_vars(&mut r);
+        emit_config(&mut w, "portable", &s, &vars, true);
     }
 
     // -- depth -------------------------------------------------------------------------
@@ -826,6 +1052,70 @@ fn main() {
             continue; // the shell's own parser decides where `$((` ends
         }
         emit_shell(&mut w, t, &vars);
+    }
+
+    // -- shellx: nounset, read-only variables, `$x`, nested `$(( ))` ------------------------
+    {
+        let lit = |s: &str| Unit::Lit(s.to_string());
+        let par = |n: &str, b: bool| Unit::Param(n.to_string(), b);
+        let fixed: Vec<(Vec<Unit>, bool, Vec<&str>)> = vec![
+            (vec![lit("x + u")], false, vec![]),
+            (vec![lit("x + u")], true, vec![]),
+            (vec![lit("0 && u")], true, vec![]),
+            (vec![lit("1 || u")], true, vec![]),
+            (vec![lit("u = 3")], true, vec![]),
+            (vec![lit("u += 3")], true, vec![]),
+            (vec![lit("u++")], true, vec![]),
+            (vec![lit("x = 7")], false, vec!["x"]),
+            (vec![lit("(y = 2) + (x = 7)")], false, vec!["x"]),
+            (vec![lit("(x = 7) + (y = 2)")], false, vec!["x"]),
+            (vec![lit("x++")], false, vec!["x"]),
+            (vec![lit("--x")], false, vec!["x"]),
+            (vec![lit("x += 0")], false, vec!["x"]),
+            (vec![lit("0 && (x = 1)")], false, vec!["x"]),
+            (vec![lit("x + 1")], false, vec!["x"]),
+            (vec![lit("(y = 2) + 1 / 0")], false, vec![]),
+            (vec![lit("(y = 2) + (y = 3) + c")], false, vec![]),
+            (vec![par("x", true), lit(" + 1")], false, vec![]),
+            (vec![par("x", false), lit(" + x")], false, vec![]),
+            (vec![par("u", true), lit(" + 1")], false, vec![]),
+            (vec![par("u", true), lit(" + 1")], true, vec![]),
+            (vec![par("m", true)], false, vec![]),
+            (vec![lit("m")], false, vec![]),
+            (vec![par("x", true), lit(" = 3")], false, vec![]),
+            (vec![lit("1 + "), Unit::Arith(vec![lit("x * 2")]), lit(" + 1")], false, vec![]),
+            (vec![lit("1 + "), Unit::Arith(vec![lit("y = 4")]), lit(" + y")], false, vec![]),
+            (vec![Unit::Arith(vec![lit("y = 4")]), lit(" + 1 / 0")], false, vec![]),
+            (vec![lit("2 * "), Unit::Arith(vec![lit("1 / 0")])], false, vec![]),
+            (vec![lit("2 * "), Unit::Arith(vec![lit("0 - 3")])], false, vec![]),
+            (vec![Unit::Arith(vec![Unit::Arith(vec![lit("x")]), lit("+"), par("x", true)])], false, vec![]),
+        ];
+        for (us, nounset, ro) in fixed {
+            let mut vars = Vars::new();
+            vars.insert("m".into(), "-9223372036854775808".into());
+            vars.insert("x".into(), "5".into());
+            vars.insert("c".into(), "1a".into());
+            let ro: Vec<String> = ro.iter().map(|s| s.to_string()).collect();
+            emit_shellx(&mut w, &us, &vars, nounset, &ro);
+        }
+        let n = args.scale(200, 3000);
+        for k in 0..n {
+            let mut r = rng.fork(0x9000 + k as u64);
+            let depth = 1 + r.below(4);
+            let t = random_tree(&mut r, depth);
+            let mut us = vec![];
+            tree_units(&t, &mut r, 0, &mut us);
+            let mut vars = random_vars(&mut r);
+            vars.retain(|_, v| !v.contains('\''));
+            let nounset = r.chance(1, 2);
+            let mut ro = vec![];
+            for name in vars.keys() {
+                if r.chance(1, 5) {
+                    ro.push(name.clone());
+                }
+            }
+            emit_shellx(&mut w, &us, &vars, nounset, &ro);
+        }
     }
 
     // -- soup --------------------------------------------------------------------------
